@@ -444,9 +444,15 @@ fn negatives<C: Suite>() -> Outcome {
             } else {
                 o.count("explicit_negatives_rejected", 1);
             }
+        } else if r.is_none() && it.name.contains("Nonce") {
+            // a zero nonce is not a value honest code produces; refusing to decode it would be hardening
+            o.count("zero_nonce_rejected", 1);
         } else if r.is_none() {
-            // zero is a legitimate value for shares/nonces/deltas: over-rejection is recorded only
-            o.count("zero_rejected_where_allowed", 1);
+            // zero is a value these types can hold (a share f(i) = 0, a zero response, a zero randomizer built
+            // with from_scalar): "decoding an encoding returns an equal value" includes it
+            o.fail(format!("{tag}/scalar/rejects-own-encoding-of-zero"), format!("{} ({:?}): the all-zero encoding, which the type itself produces for the value 0, is rejected", it.name, it.path));
+        } else {
+            o.count("zero_accepted_where_it_is_a_value", 1);
         }
     }
     // ---- elements ----
@@ -749,6 +755,18 @@ fn headers<C: Suite>() -> Outcome {
                 o.count("header_deviations_rejected", 1);
             }
         }
+        // the version is ONE byte: multi-byte spellings (what a wider integer would read as 256, 512, 65536,
+        // or as an over-long zero) put a non-zero byte there and must be rejected
+        for spell in [vec![0x80u8, 0x02], vec![0x80, 0x04], vec![0x80, 0x80, 0x04], vec![0x80, 0x00], vec![0x80, 0x80, 0x00]] {
+            let mut x = spell.clone();
+            x.extend_from_slice(&b[1..]);
+            o.eval(true);
+            if (it.dec)(&x).is_some() {
+                o.fail(format!("{tag}/header/version-accepted"), format!("{}: version spelled {} accepted", it.name, hex::encode(&spell)));
+            } else {
+                o.count("header_deviations_rejected", 1);
+            }
+        }
         for pos in 1..5 {
             for val in 0..=255u8 {
                 if val == b[pos] {
@@ -792,10 +810,15 @@ fn headers<C: Suite>() -> Outcome {
             o.fail(format!("{tag}/json-header-layout"), format!("{}: {hdr}", it.name));
         }
         let mut variants: Vec<(String, Value)> = vec![];
-        for ver in [1u64, 2, 255] {
+        for ver in [1u64, 2, 255, 256, 257, 512, 65280, 65536, 1 << 32, u64::MAX] {
             let mut x = val.clone();
             x["header"]["version"] = Value::from(ver);
             variants.push((format!("version={ver}"), x));
+        }
+        for (what, v) in [("version=-256", Value::from(-256i64)), ("version=\"0\"", Value::from("0")), ("version=null", Value::Null), ("version=0.5", serde_json::json!(0.5))] {
+            let mut x = val.clone();
+            x["header"]["version"] = v;
+            variants.push((what.to_string(), x));
         }
         for other in SUITE_IDS.iter().filter(|s| **s != C::ID).chain(["", "FROST", "frost-ed25519-sha512-v1"].iter()) {
             let mut x = val.clone();
